@@ -91,7 +91,7 @@ fixed("CS1", "C12", "8bdba18", "small caches: the 65536th eviction panicked in b
 open_("L1", "C11", "a CREATE TABLE inside a transaction that is rolled back (or dropped by a reopen) leaks the table's root page: it belongs to no tree and is not on the free list", "O-pages", "create_table_inside_session", "findings/L1-rolled-back-create-table-leaks-its-root-page.json")
 
 # ---- open findings: threads (C14) ----
-open_("T1", "C14", "two client threads inserting into the same table lose acknowledged rows (final COUNT(*) below the number of acknowledged inserts; COUNT(*) below what was acknowledged before it started)", "O-state", "concurrent_inserts_into_one_table", "findings/T1-concurrent-inserts-into-one-table-lose-acknowledged-rows.json")
+fixed("T1", "C14", "4a6207e", "two client threads inserting into the same table lost acknowledged rows (final COUNT(*) below the number of acknowledged inserts; COUNT(*) below what was acknowledged before it started)", "O-state", "findings/T1-concurrent-inserts-into-one-table-lose-acknowledged-rows.json")
 
 # ---- open findings: E2 (crash simulator) ----
 fixed("D3", "C01", "04e35a2", "a transaction open at the crash on a table whose CREATE is still in the log made open fail ('Table not found'): undo runs before redo", "O-open", "findings/D3-open-txn-on-uncheckpointed-table.json")
